@@ -130,4 +130,731 @@ theorem zip3_map {α β : Type} (f : α → β) : ∀ (as bs cs : List α),
   | _ :: _, _ :: _, [] => by simp [zip3]
   | a :: as, b :: bs, c :: cs => by simp [zip3, zip3_map f as bs cs, mapTri]
 
+/-! ### strips -/
+
+/-- the even-numbered triangles as the code builds them (before the raggedness check) -/
+def evenTris {α : Type} (xs : List α) : List (Tri α) :=
+  zip3 (slice2 xs 0 (xs.length - 2)) (slice2 xs 1 (xs.length - 1)) (slice2 xs 2 xs.length)
+
+def oddTris {α : Type} (xs : List α) : List (Tri α) :=
+  zip3 (slice2 xs 2 (xs.length - 1)) (slice2 xs 1 (xs.length - 2)) (slice2 xs 3 xs.length)
+
+/-- the three slices of `cw_` always have the same length: `numpy.array` never sees ragged input -/
+theorem stripEven_some {α : Type} (xs : List α) : stripEven xs = some (evenTris xs) := by
+  unfold stripEven evenTris zip3?
+  simp only [slice2_length]
+  rw [if_pos]
+  constructor <;> omega
+
+theorem stripOdd_some {α : Type} (xs : List α) : stripOdd xs = some (oddTris xs) := by
+  unfold stripOdd oddTris zip3?
+  simp only [slice2_length]
+  rw [if_pos]
+  constructor <;> omega
+
+theorem strip_some {α : Type} (xs : List α) : strip xs = some (evenTris xs ++ oddTris xs) := by
+  simp [strip, stripEven_some, stripOdd_some]
+
+theorem evenTris_getElem? {α : Type} (xs : List α) (j : Nat) :
+    (evenTris xs)[j]? = tri? xs (2 * j) (2 * j + 1) (2 * j + 2) := by
+  unfold evenTris
+  rw [zip3_getElem?]
+  simp only [slice2_getElem?]
+  by_cases h : 2 * j + 2 < xs.length
+  · have h1 : 0 + 2 * j < xs.length - 2 := by omega
+    have h2 : 1 + 2 * j < xs.length - 1 := by omega
+    have h3 : 2 + 2 * j < xs.length := by omega
+    simp only [h1, h2, h3, if_true]
+    have e1 : 0 + 2 * j = 2 * j := by omega
+    have e2 : 1 + 2 * j = 2 * j + 1 := by omega
+    have e3 : 2 + 2 * j = 2 * j + 2 := by omega
+    rw [e1, e2, e3]
+    rfl
+  · have h1 : ¬ (0 + 2 * j < xs.length - 2) := by omega
+    simp only [h1, if_false]
+    rw [tri?_none_of_le xs _ _ _ (by omega)]
+
+theorem oddTris_getElem? {α : Type} (xs : List α) (j : Nat) :
+    (oddTris xs)[j]? = tri? xs (2 * j + 2) (2 * j + 1) (2 * j + 3) := by
+  unfold oddTris
+  rw [zip3_getElem?]
+  simp only [slice2_getElem?]
+  by_cases h : 2 * j + 3 < xs.length
+  · have h1 : 2 + 2 * j < xs.length - 1 := by omega
+    have h2 : 1 + 2 * j < xs.length - 2 := by omega
+    have h3 : 3 + 2 * j < xs.length := by omega
+    simp only [h1, h2, h3, if_true]
+    have e1 : 2 + 2 * j = 2 * j + 2 := by omega
+    have e2 : 1 + 2 * j = 2 * j + 1 := by omega
+    have e3 : 3 + 2 * j = 2 * j + 3 := by omega
+    rw [e1, e2, e3]
+    rfl
+  · have h1 : ¬ (2 + 2 * j < xs.length - 1) := by omega
+    simp only [h1, if_false]
+    rw [tri?_none_of_le xs _ _ _ (by omega)]
+
+theorem stripOrder_cons3 {α : Type} (odd : Bool) (a b c : α) (t : List α) :
+    stripOrder odd (a :: b :: c :: t) =
+      (if odd then (b, a, c) else (a, b, c)) :: stripOrder (!odd) (b :: c :: t) := by
+  rw [stripOrder]
+
+theorem stripOrder_getElem? {α : Type} : ∀ (xs : List α) (odd : Bool) (i : Nat),
+    (stripOrder odd xs)[i]? =
+      if (odd ^^ decide (i % 2 = 1)) then tri? xs (i + 1) i (i + 2) else tri? xs i (i + 1) (i + 2)
+  | [], odd, i => by
+    simp [stripOrder, tri?]
+  | [a], odd, i => by
+    simp only [stripOrder, List.getElem?_nil]
+    rw [tri?_none_of_le _ _ _ _ (by simp), tri?_none_of_le _ _ _ _ (by simp)]; simp
+  | [a, b], odd, i => by
+    simp only [stripOrder, List.getElem?_nil]
+    rw [tri?_none_of_le _ _ _ _ (by simp), tri?_none_of_le _ _ _ _ (by simp)]; simp
+  | a :: b :: c :: t, odd, 0 => by
+    rw [stripOrder_cons3]
+    cases odd <;> simp [tri?]
+  | a :: b :: c :: t, odd, j + 1 => by
+    have ih := stripOrder_getElem? (b :: c :: t) (!odd) j
+    rw [stripOrder_cons3, List.getElem?_cons_succ, ih]
+    have e1 : tri? (a :: b :: c :: t) (j + 1 + 1) (j + 1) (j + 1 + 2) = tri? (b :: c :: t) (j + 1) j (j + 2) :=
+      tri?_cons a _ (j + 1) j (j + 2)
+    have e2 : tri? (a :: b :: c :: t) (j + 1) (j + 1 + 1) (j + 1 + 2) = tri? (b :: c :: t) j (j + 1) (j + 2) :=
+      tri?_cons a _ j (j + 1) (j + 2)
+    rw [e1, e2]
+    have hp : decide ((j + 1) % 2 = 1) = !decide (j % 2 = 1) := by
+      by_cases h : j % 2 = 1
+      · have : ¬ ((j + 1) % 2 = 1) := by omega
+        simp [h, this]
+      · have : (j + 1) % 2 = 1 := by omega
+        simp [h, this]
+    rw [hp]
+    cases odd <;> cases decide (j % 2 = 1) <;> rfl
+
+theorem stripOrder_false_getElem? {α : Type} (xs : List α) (i : Nat) :
+    (stripOrder false xs)[i]? = stripTri? xs i := by
+  rw [stripOrder_getElem?]
+  unfold stripTri?
+  by_cases h : i % 2 = 0
+  · have : ¬ (i % 2 = 1) := by omega
+    simp [h]
+  · have : i % 2 = 1 := by omega
+    simp [this]
+
+theorem stripTri?_isSome {α : Type} (xs : List α) (i : Nat) :
+    (stripTri? xs i).isSome = decide (i + 2 < xs.length) := by
+  unfold stripTri? tri?
+  by_cases h : i + 2 < xs.length
+  · have h0 : i < xs.length := by omega
+    have h1 : i + 1 < xs.length := by omega
+    simp [h, List.getElem?_eq_getElem h0, List.getElem?_eq_getElem h1]
+    split <;> rfl
+  · have : xs[i + 2]? = none := List.getElem?_eq_none (by omega)
+    simp only [this, h, decide_false]
+    split <;> (cases xs[i]? <;> cases xs[i + 1]? <;> rfl)
+
+theorem stripOrder_length {α : Type} (xs : List α) : (stripOrder false xs).length = xs.length - 2 := by
+  apply Nat.le_antisymm
+  · apply Nat.le_of_not_lt
+    intro h
+    have h1 : ((stripOrder false xs)[xs.length - 2]?).isSome = true := by
+      rw [List.getElem?_eq_getElem h]; rfl
+    rw [stripOrder_false_getElem?, stripTri?_isSome] at h1
+    simp at h1
+    omega
+  · apply Nat.le_of_not_lt
+    intro h
+    have h1 : (stripOrder false xs)[(stripOrder false xs).length]? = none := List.getElem?_eq_none (Nat.le_refl _)
+    rw [stripOrder_false_getElem?] at h1
+    have h2 := stripTri?_isSome xs (stripOrder false xs).length
+    rw [h1] at h2
+    simp at h2
+    omega
+
+/-- the code's first block is the even positions of the strip-order reading -/
+theorem evenTris_eq {α : Type} (xs : List α) : evenTris xs = evens (stripOrder false xs) := by
+  apply List.ext_getElem?
+  intro j
+  rw [evenTris_getElem?, evens_getElem?, stripOrder_false_getElem?]
+  unfold stripTri?
+  simp
+
+theorem oddTris_eq {α : Type} (xs : List α) : oddTris xs = evens (stripOrder false xs).tail := by
+  apply List.ext_getElem?
+  intro j
+  rw [oddTris_getElem?, evens_getElem?, List.getElem?_tail, stripOrder_false_getElem?]
+  unfold stripTri?
+  simp
+
+theorem stripOrder_map {α β : Type} (f : α → β) : ∀ (xs : List α) (odd : Bool),
+    stripOrder odd (xs.map f) = (stripOrder odd xs).map (mapTri f)
+  | [], odd => by simp [stripOrder]
+  | [a], odd => by simp [stripOrder]
+  | [a, b], odd => by simp [stripOrder]
+  | a :: b :: c :: t, odd => by
+    have ih := stripOrder_map f (b :: c :: t) (!odd)
+    simp only [List.map_cons] at ih
+    simp only [List.map_cons]
+    rw [stripOrder_cons3, stripOrder_cons3, ih]
+    cases odd <;> simp [mapTri]
+
+/-! ### fans -/
+
+theorem fanFrom_getElem? {α : Type} (a : α) : ∀ (l : List α) (i : Nat),
+    (fanFrom a l)[i]? = match l[i]?, l[i + 1]? with
+      | some b, some c => some (a, b, c)
+      | _, _ => none
+  | [], i => by simp [fanFrom]
+  | [b], i => by
+    simp only [fanFrom, List.getElem?_nil]
+    cases i <;> simp
+  | b :: c :: t, 0 => by simp [fanFrom]
+  | b :: c :: t, i + 1 => by
+    have ih := fanFrom_getElem? a (c :: t) i
+    rw [fanFrom]
+    simp only [List.getElem?_cons_succ]
+    exact ih
+
+/-- triangle `i` of a fan is `(x 0, x (i+1), x (i+2))`, and there is none from `i = n - 2` on -/
+theorem fanSpec_getElem? {α : Type} (xs : List α) (i : Nat) :
+    (fanSpec xs)[i]? = tri? xs 0 (i + 1) (i + 2) := by
+  cases xs with
+  | nil => simp [fanSpec, tri?]
+  | cons a l =>
+    simp only [fanSpec, fanFrom_getElem?, tri?, List.getElem?_cons_zero, List.getElem?_cons_succ]
+    cases l[i]? <;> cases l[i + 1]? <;> rfl
+
+theorem fanSpec_length {α : Type} (xs : List α) : (fanSpec xs).length = xs.length - 2 := by
+  cases xs with
+  | nil => simp [fanSpec]
+  | cons a l =>
+    simp only [fanSpec, List.length_cons]
+    induction l with
+    | nil => simp [fanFrom]
+    | cons b t ih =>
+      cases t with
+      | nil => simp [fanFrom]
+      | cons c t' =>
+        rw [fanFrom]
+        simp only [List.length_cons] at ih ⊢
+        omega
+
+theorem fanFrom_map {α β : Type} (f : α → β) (a : α) : ∀ (l : List α),
+    fanFrom (f a) (l.map f) = (fanFrom a l).map (mapTri f)
+  | [] => by simp [fanFrom]
+  | [b] => by simp [fanFrom]
+  | b :: c :: t => by
+    have ih := fanFrom_map f a (c :: t)
+    simp only [List.map_cons] at ih ⊢
+    rw [fanFrom, fanFrom, ih]
+    simp [mapTri]
+
+theorem fanSpec_map {α β : Type} (f : α → β) (xs : List α) :
+    fanSpec (xs.map f) = (fanSpec xs).map (mapTri f) := by
+  cases xs with
+  | nil => simp [fanSpec]
+  | cons a l => simp [fanSpec, fanFrom_map]
+
+/-- `_extendFromFan` never sees ragged operands and produces the fan around the first row -/
+theorem fan_some {α : Type} (xs : List α) : fan xs = some (fanSpec xs) := by
+  unfold fan zip3?
+  have hl : ((xs.take 1).flatMap (List.replicate (xs.length - 2))).length = xs.length - 2 := by
+    cases xs with
+    | nil => simp
+    | cons a l => simp
+  rw [if_pos (by rw [hl]; simp; omega)]
+  congr 1
+  apply List.ext_getElem?
+  intro i
+  rw [zip3_getElem?, fanSpec_getElem?]
+  unfold tri?
+  have h0 : ((xs.take 1).flatMap (List.replicate (xs.length - 2)))[i]? =
+      if i < xs.length - 2 then xs[0]? else none := by
+    cases xs with
+    | nil => simp
+    | cons a l =>
+      simp only [List.take_succ_cons, List.take_zero, List.flatMap_cons, List.flatMap_nil,
+        List.append_nil, List.getElem?_replicate, List.getElem?_cons_zero]
+  rw [h0]
+  simp only [List.getElem?_drop, List.getElem?_take]
+  by_cases h : i + 2 < xs.length
+  · have h1 : i < xs.length - 2 := by omega
+    have h2 : i + 1 < xs.length - 1 := by omega
+    have e1 : 1 + i = i + 1 := by omega
+    have e2 : 2 + i = i + 2 := by omega
+    simp only [h1, h2, if_true, e1, e2]
+    cases xs[0]? <;> cases xs[i + 1]? <;> cases xs[i + 2]? <;> rfl
+  · have h1 : ¬ (i < xs.length - 2) := by omega
+    have : xs[i + 2]? = none := List.getElem?_eq_none (by omega)
+    simp only [h1, if_false, this]
+    cases xs[0]? <;> cases xs[i + 1]? <;> rfl
+
+/-- `Polygon.triangles()` produces the same fan -/
+theorem polygonTriangles_some {α : Type} (xs : List α) : polygonTriangles xs = some (fanSpec xs) := by
+  unfold polygonTriangles
+  rw [traverse_eq_some_iff]
+  apply List.ext_getElem?
+  intro i
+  simp only [List.getElem?_map, fanSpec_getElem?]
+  by_cases h : i < xs.length - 2
+  · rw [List.getElem?_range h]
+    have h2 : i + 2 < xs.length := by omega
+    have ht : tri? xs 0 (i + 1) (i + 2) = some (xs[0], xs[i + 1], xs[i + 2]) := by
+      unfold tri?
+      rw [List.getElem?_eq_getElem h2, List.getElem?_eq_getElem (by omega : i + 1 < xs.length),
+        List.getElem?_eq_getElem (by omega : 0 < xs.length)]
+    simp only [Option.map_some, ht]
+  · have : (List.range (xs.length - 2))[i]? = none := List.getElem?_eq_none (by simp; omega)
+    rw [this, tri?_none_of_le xs _ _ _ (by omega)]
+    rfl
+
+/-! ### reshape into rows, the per-<p> loop -/
+
+theorem traverse_none {α β : Type} (f : α → Option β) : ∀ (l : List α) (a : α), a ∈ l → f a = none →
+    traverse f l = none
+  | [], a, h, _ => by cases h
+  | x :: t, a, h, hf => by
+    simp only [List.mem_cons] at h
+    rcases h with rfl | h
+    · simp [traverse, hf]
+    · have := traverse_none f t a h hf
+      simp only [traverse, this]
+      cases f x <;> rfl
+
+theorem traverse_map {α β γ : Type} (g : γ → α) (f : α → Option β) : ∀ (l : List γ),
+    traverse f (l.map g) = traverse (fun x => f (g x)) l
+  | [] => rfl
+  | x :: t => by simp [traverse, traverse_map g f t]
+
+theorem rowsGo_getElem? {β : Type} (k : Nat) : ∀ (m : Nat) (xs : List β) (i : Nat),
+    (rowsGo k m xs)[i]? = if i < m then some ((xs.drop (k * i)).take k) else none
+  | 0, xs, i => by simp [rowsGo]
+  | m + 1, xs, 0 => by simp [rowsGo]
+  | m + 1, xs, i + 1 => by
+    simp only [rowsGo, List.getElem?_cons_succ, rowsGo_getElem? k m (xs.drop k) i, List.drop_drop]
+    have : k + k * i = k * (i + 1) := by rw [Nat.mul_succ]; omega
+    rw [this]
+    by_cases h : i < m
+    · simp [h]
+    · simp [h]
+
+theorem rowsGo_length {β : Type} (k : Nat) : ∀ (m : Nat) (xs : List β), (rowsGo k m xs).length = m
+  | 0, _ => rfl
+  | m + 1, xs => by simp [rowsGo, rowsGo_length k m]
+
+theorem rowsGo_flatten {β : Type} (k : Nat) : ∀ (m : Nat) (xs : List β),
+    (rowsGo k m xs).flatten = xs.take (m * k)
+  | 0, xs => by simp [rowsGo]
+  | m + 1, xs => by
+    simp only [rowsGo, List.flatten_cons, rowsGo_flatten k m]
+    have : (m + 1) * k = k + m * k := by rw [Nat.succ_mul]; omega
+    rw [this, List.take_add]
+
+theorem rowsGo_append {β : Type} (k : Nat) : ∀ (m n : Nat) (xs ys : List β), xs.length = m * k →
+    rowsGo k (m + n) (xs ++ ys) = rowsGo k m xs ++ rowsGo k n ys
+  | 0, n, xs, ys, h => by
+    have : xs = [] := by
+      apply List.eq_nil_of_length_eq_zero; simpa using h
+    simp [this, rowsGo]
+  | m + 1, n, xs, ys, h => by
+    have hk : k ≤ xs.length := by rw [h, Nat.succ_mul]; omega
+    have e : m + 1 + n = (m + n) + 1 := by omega
+    rw [e]
+    simp only [rowsGo]
+    have h1 : (xs ++ ys).take k = xs.take k := by
+      rw [List.take_append_of_le_length hk]
+    have h2 : (xs ++ ys).drop k = xs.drop k ++ ys := by
+      rw [List.drop_append_of_le_length hk]
+    rw [h1, h2, rowsGo_append k m n (xs.drop k) ys (by rw [List.length_drop, h, Nat.succ_mul]; omega)]
+    simp
+
+/-- total version of `chunk` used in statements: the rows of a stream -/
+def rowsOf {β : Type} (k : Nat) (xs : List β) : List (List β) := rowsGo k (xs.length / k) xs
+
+theorem chunk_some {β : Type} (k : Nat) (xs : List β) (hk : k ≠ 0) (h : xs.length % k = 0) :
+    chunk k xs = some (rowsOf k xs) := by
+  simp [chunk, hk, h, rowsOf]
+
+theorem chunk_none {β : Type} (k : Nat) (xs : List β) (h : xs.length % k ≠ 0) :
+    chunk k xs = none := by
+  unfold chunk
+  split
+  · rfl
+  · simp
+
+theorem chunk_eq_some {β : Type} (k : Nat) (xs : List β) (rows : List (List β)) (h : chunk k xs = some rows) :
+    k ≠ 0 ∧ xs.length % k = 0 ∧ rows = rowsOf k xs := by
+  unfold chunk at h
+  split at h
+  · cases h
+  · next hk =>
+    split at h
+    · next hm => cases h; exact ⟨hk, hm, rfl⟩
+    · cases h
+
+theorem rowsOf_flatten {β : Type} (k : Nat) (xs : List β) (h : xs.length % k = 0) :
+    (rowsOf k xs).flatten = xs := by
+  unfold rowsOf
+  rw [rowsGo_flatten]
+  apply List.take_of_length_le
+  have := Nat.div_add_mod xs.length k
+  rw [h, Nat.mul_comm] at this
+  omega
+
+theorem rowsOf_getElem? {β : Type} (k : Nat) (xs : List β) (i : Nat) :
+    (rowsOf k xs)[i]? = if i < xs.length / k then some ((xs.drop (k * i)).take k) else none := by
+  unfold rowsOf; rw [rowsGo_getElem?]
+
+theorem rowsOf_length {β : Type} (k : Nat) (xs : List β) : (rowsOf k xs).length = xs.length / k := by
+  unfold rowsOf; rw [rowsGo_length]
+
+/-- what one `<p>` expands to, as a total function -/
+def expand {α : Type} : Kind → List α → List (Tri α)
+  | .strip, xs => evenTris xs ++ oddTris xs
+  | .fan, xs => fanSpec xs
+
+theorem extend_some {α : Type} (kind : Kind) (xs : List α) : extend kind xs = some (expand kind xs) := by
+  cases kind
+  · exact strip_some xs
+  · exact fan_some xs
+
+theorem loadP_some {β : Type} (kind : Kind) (k : Nat) (p : List β) (hk : k ≠ 0) (h : p.length % k = 0) :
+    loadP kind k p = some (expand kind (rowsOf k p)) := by
+  simp [loadP, chunk_some k p hk h, extend_some]
+
+theorem loadP_none {β : Type} (kind : Kind) (k : Nat) (p : List β) (h : p.length % k ≠ 0) :
+    loadP kind k p = none := by
+  simp [loadP, chunk_none k p h]
+
+/-! ### polygons: starts, ends, item access -/
+
+def startsFrom (b : Nat) (vc : List Nat) : List Nat := List.zipWith (· - ·) (cumsumFrom b vc) vc
+
+theorem polystarts_eq (vc : List Nat) : polystarts vc = startsFrom 0 vc := rfl
+
+theorem startsFrom_cons (b c : Nat) (cs : List Nat) :
+    startsFrom b (c :: cs) = b :: startsFrom (b + c) cs := by
+  simp [startsFrom, cumsumFrom]
+
+def polygonsFrom {α : Type} (b : Nat) (rows : List α) (vc : List Nat) : List (List α) :=
+  (List.zip (startsFrom b vc) (cumsumFrom b vc)).map (fun se => (rows.take se.2).drop se.1)
+
+theorem polygonsFrom_eq {α : Type} (rows : List α) : ∀ (vc : List Nat) (b : Nat),
+    polygonsFrom b rows vc = splitPolys (rows.drop b) vc
+  | [], b => by simp [polygonsFrom, startsFrom, cumsumFrom, splitPolys]
+  | c :: cs, b => by
+    have ih := polygonsFrom_eq rows cs (b + c)
+    unfold polygonsFrom at ih ⊢
+    rw [startsFrom_cons]
+    simp only [cumsumFrom, List.zip_cons_cons, List.map_cons, splitPolys, ih, List.drop_drop]
+    congr 1
+    rw [List.drop_take]
+    congr 1
+    omega
+
+/-- `P[i]` for all `i`: the consecutive polygons -/
+theorem polygonsOf_eq {α : Type} (rows : List α) (vc : List Nat) :
+    polygonsOf rows vc = splitPolys rows vc := by
+  have := polygonsFrom_eq rows vc 0
+  simpa [polygonsFrom, polygonsOf, polystarts_eq, polyends] using this
+
+theorem splitPolys_length {α : Type} : ∀ (vc : List Nat) (rows : List α),
+    (splitPolys rows vc).length = vc.length
+  | [], _ => rfl
+  | _ :: cs, rows => by simp [splitPolys, splitPolys_length cs]
+
+theorem splitPolys_map {α β : Type} (f : α → β) : ∀ (vc : List Nat) (rows : List α),
+    splitPolys (rows.map f) vc = (splitPolys rows vc).map (List.map f)
+  | [], _ => rfl
+  | c :: cs, rows => by
+    simp only [splitPolys, List.map_cons, ← List.map_take, ← List.map_drop, splitPolys_map f cs]
+
+/-- with consistent counts, polygon `i` has `vcounts[i]` corners -/
+theorem splitPolys_lengths {α : Type} : ∀ (vc : List Nat) (rows : List α), vc.sum ≤ rows.length →
+    (splitPolys rows vc).map List.length = vc
+  | [], _, _ => rfl
+  | c :: cs, rows, h => by
+    simp only [List.sum_cons] at h
+    simp only [splitPolys, List.map_cons, List.length_take]
+    rw [splitPolys_lengths cs (rows.drop c) (by rw [List.length_drop]; omega)]
+    congr 1
+    omega
+
+theorem splitPolys_flatten {α : Type} : ∀ (vc : List Nat) (rows : List α), rows.length ≤ vc.sum →
+    (splitPolys rows vc).flatten = rows
+  | [], rows, h => by
+    have : rows = [] := List.eq_nil_of_length_eq_zero (by simpa using h)
+    simp [splitPolys, this]
+  | c :: cs, rows, h => by
+    simp only [List.sum_cons] at h
+    simp only [splitPolys, List.flatten_cons]
+    rw [splitPolys_flatten cs (rows.drop c) (by rw [List.length_drop]; omega)]
+    exact List.take_append_drop c rows
+
+/-! ### the corner selector of `Polylist.triangleset()` -/
+
+/-- every corner with the start and the end of its own polygon: `(q, start, end)` -/
+def cornerTable : Nat → List Nat → List (Nat × Nat × Nat)
+  | _, [] => []
+  | b, c :: cs => (List.range' b c).map (fun q => (q, b, b + c)) ++ cornerTable (b + c) cs
+
+theorem cornerTable_corner : ∀ (vc : List Nat) (b : Nat),
+    (cornerTable b vc).map (·.1) = List.range' b vc.sum
+  | [], b => by simp [cornerTable]
+  | c :: cs, b => by
+    simp only [cornerTable, List.map_append, List.map_map, cornerTable_corner cs, List.sum_cons]
+    rw [← List.range'_append_1]
+    congr 1
+    simp [Function.comp_def]
+
+theorem cornerTable_start : ∀ (vc : List Nat) (b : Nat),
+    (cornerTable b vc).map (·.2.1) = repeatBy (startsFrom b vc) vc
+  | [], b => by simp [cornerTable, startsFrom, cumsumFrom, repeatBy]
+  | c :: cs, b => by
+    rw [startsFrom_cons]
+    simp only [cornerTable, List.map_append, List.map_map, cornerTable_start cs, repeatBy]
+    congr 1
+    apply List.ext_getElem?
+    intro i
+    simp only [List.getElem?_map, List.getElem?_replicate, Function.comp_def]
+    by_cases h : i < c
+    · simp [h]
+    · simp [h]
+
+theorem cornerTable_end : ∀ (vc : List Nat) (b : Nat),
+    (cornerTable b vc).map (·.2.2) = repeatBy (cumsumFrom b vc) vc
+  | [], b => by simp [cornerTable, cumsumFrom, repeatBy]
+  | c :: cs, b => by
+    simp only [cornerTable, cumsumFrom, List.map_append, List.map_map, cornerTable_end cs, repeatBy]
+    congr 1
+    apply List.ext_getElem?
+    intro i
+    simp only [List.getElem?_map, List.getElem?_replicate, Function.comp_def]
+    by_cases h : i < c
+    · simp [h]
+    · simp [h]
+
+theorem cornerTable_length (vc : List Nat) (b : Nat) : (cornerTable b vc).length = vc.sum := by
+  have := congrArg List.length (cornerTable_corner vc b)
+  simpa using this
+
+theorem cornerTable_bounds : ∀ (vc : List Nat) (b : Nat) (x : Nat × Nat × Nat), x ∈ cornerTable b vc →
+    x.2.1 ≤ x.1 ∧ x.2.2 ≤ b + vc.sum
+  | [], b, x, h => by simp [cornerTable] at h
+  | c :: cs, b, x, h => by
+    simp only [cornerTable, List.mem_append, List.mem_map, List.mem_range'_1] at h
+    simp only [List.sum_cons]
+    rcases h with ⟨q, hq, rfl⟩ | h
+    · simp; omega
+    · have := cornerTable_bounds cs (b + c) x h
+      omega
+
+/-- position `i` of the table describes corner `i` (for the whole primitive, base 0) -/
+theorem cornerTable_getElem?_fst (vc : List Nat) (i : Nat) (x : Nat × Nat × Nat)
+    (h : (cornerTable 0 vc)[i]? = some x) : x.1 = i := by
+  have h1 : ((cornerTable 0 vc).map (·.1))[i]? = some x.1 := by simp [h]
+  rw [cornerTable_corner] at h1
+  have hi : i < vc.sum := by
+    have := (List.getElem?_eq_some_iff.mp h).1
+    rwa [cornerTable_length] at this
+  rw [List.getElem?_range' hi] at h1
+  simp at h1
+  omega
+
+theorem zip3?_cons {α : Type} (x y z : α) (a b c : List α) :
+    zip3? (x :: a) (y :: b) (z :: c) = (zip3? a b c).map (fun t => (x, y, z) :: t) := by
+  unfold zip3?
+  simp only [List.length_cons, Nat.add_right_cancel_iff]
+  split <;> simp [zip3]
+
+/-- three fancy-index gathers through the same selection followed by `dstack` are one lookup
+    of three positions per selected element -/
+theorem gather_zip3 {α ι : Type} (rows : List α) (fa fb fc : ι → Nat) : ∀ (L : List ι),
+    dstack3 (gather rows (L.map fa)) (gather rows (L.map fb)) (gather rows (L.map fc))
+      = traverse (fun x => tri? rows (fa x) (fb x) (fc x)) L
+  | [] => by simp [dstack3, gather, traverse, zip3?, zip3]
+  | x :: L => by
+    have ih := gather_zip3 rows fa fb fc L
+    simp only [dstack3, gather, List.map_cons, traverse, tri?] at ih ⊢
+    cases h1 : rows[fa x]? <;> cases h2 : rows[fb x]? <;> cases h3 : rows[fc x]? <;>
+      cases g1 : traverse (fun i => rows[i]?) (L.map fa) <;>
+      cases g2 : traverse (fun i => rows[i]?) (L.map fb) <;>
+      cases g3 : traverse (fun i => rows[i]?) (L.map fc) <;>
+      simp only [g1, g2, g3] at ih <;> simp [← ih, zip3?_cons]
+    all_goals (cases zip3? _ _ _ <;> rfl)
+
+theorem range'_filter_fan : ∀ (c b : Nat),
+    (List.range' b c).filter (fun q => decide (q + 2 < b + c)) = List.range' b (c - 2)
+  | 0, b => by simp
+  | c + 1, b => by
+    have ih := range'_filter_fan c (b + 1)
+    have e : b + 1 + c = b + (c + 1) := by omega
+    rw [e] at ih
+    rw [List.range'_succ, List.filter_cons, ih]
+    by_cases h : 2 ≤ c
+    · have h1 : b + 2 < b + (c + 1) := by omega
+      have e2 : c + 1 - 2 = (c - 2) + 1 := by omega
+      simp only [h1, decide_true, if_true]
+      rw [e2, List.range'_succ]
+    · have h1 : ¬ (b + 2 < b + (c + 1)) := by omega
+      have e2 : c + 1 - 2 = 0 := by omega
+      have e3 : c - 2 = 0 := by omega
+      simp [h1, e2, e3]
+
+theorem tri?_some {α : Type} (xs : List α) (a b c : Nat) (ha : a < xs.length) (hb : b < xs.length)
+    (hc : c < xs.length) : tri? xs a b c = some (xs[a], xs[b], xs[c]) := by
+  unfold tri?
+  rw [List.getElem?_eq_getElem ha, List.getElem?_eq_getElem hb, List.getElem?_eq_getElem hc]
+
+/-- one polygon: the selected corners of the polygon that occupies `[b, b + c)` give its fan -/
+theorem polygon_selected {α : Type} (rows : List α) (b c : Nat) (h : b + c ≤ rows.length) :
+    traverse (fun x : Nat × Nat × Nat => tri? rows x.2.1 (x.1 + 1) (x.1 + 2))
+      (((List.range' b c).map (fun q => (q, b, b + c))).filter (fun x => decide (x.1 + 2 < x.2.2)))
+    = some (fanSpec ((rows.drop b).take c)) := by
+  rw [List.filter_map, traverse_map]
+  simp only [Function.comp_def]
+  rw [range'_filter_fan, traverse_eq_some_iff]
+  apply List.ext_getElem?
+  intro j
+  simp only [List.getElem?_map, fanSpec_getElem?]
+  have hP : ((rows.drop b).take c).length = c := by simp; omega
+  by_cases hj : j < c - 2
+  · rw [List.getElem?_range' hj]
+    have e : b + 1 * j = b + j := by omega
+    simp only [Option.map_some, e]
+    rw [tri?_some _ 0 (j + 1) (j + 2) (by omega) (by omega) (by omega),
+      tri?_some rows b (b + j + 1) (b + j + 2) (by omega) (by omega) (by omega)]
+    simp only [Option.map_some, List.getElem_take, List.getElem_drop]
+    congr 3 <;> (congr 1; omega)
+  · have : (List.range' b (c - 2))[j]? = none := List.getElem?_eq_none (by simp; omega)
+    rw [this, tri?_none_of_le _ _ _ _ (by omega)]
+    rfl
+
+/-- all polygons: filtering the corner table and looking the three corners up gives the fans of
+    the consecutive polygons, in polygon order -/
+theorem table_selected {α : Type} (rows : List α) : ∀ (vc : List Nat) (b : Nat), b + vc.sum ≤ rows.length →
+    traverse (fun x : Nat × Nat × Nat => tri? rows x.2.1 (x.1 + 1) (x.1 + 2))
+      ((cornerTable b vc).filter (fun x => decide (x.1 + 2 < x.2.2)))
+    = some ((splitPolys (rows.drop b) vc).flatMap fanSpec)
+  | [], b, _ => by simp [cornerTable, splitPolys, traverse]
+  | c :: cs, b, h => by
+    simp only [List.sum_cons] at h
+    simp only [cornerTable, List.filter_append, splitPolys, List.flatMap_cons]
+    apply traverse_append
+    · exact polygon_selected rows b c (by omega)
+    · have := table_selected rows cs (b + c) (by omega)
+      rw [List.drop_drop]
+      exact this
+
+theorem zipWith_map_map {ι β γ δ : Type} (h : β → γ → δ) (f : ι → β) (g : ι → γ) : ∀ (T : List ι),
+    List.zipWith h (T.map f) (T.map g) = T.map (fun x => h (f x) (g x))
+  | [] => rfl
+  | x :: T => by simp [zipWith_map_map h f g T]
+
+theorem select_by_mask {ι β γ : Type} (f : ι → β) (g : ι → γ) (P : β × γ → Bool) (T : List ι) :
+    (((T.map f).zip (T.map g)).filter P).map (·.1) = (T.filter (fun x => P (f x, g x))).map f := by
+  rw [List.zip_map', List.filter_map, List.map_map]
+  rfl
+
+theorem gather_table {β : Type} (T : List (Nat × Nat × Nat)) (g : Nat × Nat × Nat → β)
+    (P : Nat × Nat × Nat → Bool) (hT : ∀ (i : Nat) (x : Nat × Nat × Nat), T[i]? = some x → x.1 = i) :
+    gather (T.map g) ((T.filter P).map (·.1)) = some ((T.filter P).map g) := by
+  unfold gather
+  rw [traverse_map]
+  apply traverse_map_some
+  intro x hx
+  have hx' : x ∈ T := (List.mem_filter.mp hx).1
+  obtain ⟨i, hi⟩ := List.getElem?_of_mem hx'
+  have := hT i x hi
+  rw [this]
+  simp [hi]
+
+theorem repeatBy_cumsum_length (vc : List Nat) (b : Nat) : (repeatBy (cumsumFrom b vc) vc).length = vc.sum := by
+  rw [← cornerTable_end, List.length_map, cornerTable_length]
+
+theorem splitPolys_nil_fans {α : Type} : ∀ (vc : List Nat),
+    (splitPolys ([] : List α) vc).flatMap fanSpec = []
+  | [] => rfl
+  | c :: cs => by simp [splitPolys, fanSpec, splitPolys_nil_fans cs]
+
+/-- `Polylist.triangleset()`: with one row per counted corner the selector arithmetic succeeds
+    and yields the fans of the consecutive polygons -/
+theorem triangulate_some {α : Type} (rows : List α) (vc : List Nat) (h : rows.length = vc.sum) :
+    triangulate rows vc = some ((splitPolys rows vc).flatMap fanSpec) := by
+  unfold triangulate
+  cases rows with
+  | nil =>
+    have h0 : vc.sum = 0 := by simpa using h.symm
+    simp [polyends, repeatBy_cumsum_length, h0, gather, traverse, splitPolys_nil_fans]
+  | cons r rs =>
+    have hne : (r :: rs).isEmpty = false := rfl
+    simp only [hne, Bool.false_eq_true, if_false]
+    have hT := cornerTable_getElem?_fst vc
+    have e1 : List.range vc.sum = (cornerTable 0 vc).map (·.1) := by
+      rw [cornerTable_corner, List.range_eq_range']
+    have e2 : repeatBy (polyends vc) vc = (cornerTable 0 vc).map (·.2.2) := by
+      rw [cornerTable_end]; rfl
+    have e3 : repeatBy (polystarts vc) vc = (cornerTable 0 vc).map (·.2.1) := by
+      rw [cornerTable_start]; rfl
+    rw [e1, e2, e3]
+    rw [if_neg (by simp [cornerTable_length])]
+    rw [select_by_mask (·.1) (·.2.2) (fun qe => decide (qe.1 + 2 < qe.2)) (cornerTable 0 vc)]
+    rw [zipWith_map_map]
+    rw [gather_table _ _ _ hT]
+    simp only
+    rw [zipWith_map_map, List.map_map, List.map_map]
+    have e4 : (List.filter (fun x : Nat × Nat × Nat => decide (x.1 + 2 < x.2.2)) (cornerTable 0 vc)).map
+          (fun x => x.1 - (x.1 - x.2.1)) =
+        (List.filter (fun x : Nat × Nat × Nat => decide (x.1 + 2 < x.2.2)) (cornerTable 0 vc)).map (·.2.1) := by
+      apply List.map_congr_left
+      intro x hx
+      have := (cornerTable_bounds vc 0 x (List.mem_filter.mp hx).1).1
+      omega
+    rw [e4]
+    have := gather_zip3 (r :: rs) (fun x : Nat × Nat × Nat => x.2.1) (fun x => x.1 + 1) (fun x => x.1 + 2)
+      (List.filter (fun x : Nat × Nat × Nat => decide (x.1 + 2 < x.2.2)) (cornerTable 0 vc))
+    simp only [Function.comp_def] at this ⊢
+    rw [this]
+    have := table_selected (r :: rs) vc 0 (by omega)
+    simpa using this
+
+/-! ### `Polygons`: one `<p>` per polygon -/
+
+theorem rowsOf_append {β : Type} (k : Nat) (hk : k ≠ 0) (p rest : List β) (h : p.length % k = 0) :
+    rowsOf k (p ++ rest) = rowsOf k p ++ rowsOf k rest := by
+  unfold rowsOf
+  have hm : p.length = p.length / k * k := by
+    have := Nat.div_add_mod p.length k
+    rw [h, Nat.mul_comm] at this
+    omega
+  have hd : (p ++ rest).length / k = p.length / k + rest.length / k := by
+    rw [List.length_append, Nat.add_comm p.length, hm, Nat.add_mul_div_right _ _ (Nat.pos_of_ne_zero hk),
+      Nat.mul_div_cancel _ (Nat.pos_of_ne_zero hk)]
+    omega
+  rw [hd]
+  exact rowsGo_append k _ _ p rest hm
+
+theorem flatten_length_mod {β : Type} (k : Nat) : ∀ (ps : List (List β)), (∀ p ∈ ps, p.length % k = 0) →
+    ps.flatten.length % k = 0
+  | [], _ => by simp
+  | p :: ps, h => by
+    have h1 := h p (by simp)
+    have h2 := flatten_length_mod k ps (fun q hq => h q (by simp [hq]))
+    simp only [List.flatten_cons, List.length_append]
+    rw [Nat.add_mod, h1, h2]
+    simp
+
+theorem rowsOf_flatten_all {β : Type} (k : Nat) (hk : k ≠ 0) : ∀ (ps : List (List β)),
+    (∀ p ∈ ps, p.length % k = 0) → rowsOf k ps.flatten = (ps.map (rowsOf k)).flatten
+  | [], _ => by simp [rowsOf, rowsGo]
+  | p :: ps, h => by
+    simp only [List.flatten_cons, List.map_cons]
+    rw [rowsOf_append k hk p _ (h p (by simp)),
+      rowsOf_flatten_all k hk ps (fun q hq => h q (by simp [hq]))]
+
+theorem splitPolys_flatten_lengths {α : Type} : ∀ (rowss : List (List α)),
+    splitPolys rowss.flatten (rowss.map List.length) = rowss
+  | [] => rfl
+  | r :: rest => by
+    simp only [List.flatten_cons, List.map_cons, splitPolys, List.take_left', List.drop_left',
+      splitPolys_flatten_lengths rest]
+
 end Pyc.IndexOps
